@@ -89,6 +89,10 @@ func c19Worker(c *core.Collector, x *Ctx) {
 		filepath.Join(work, "passwd"):         "passwd in work\n",
 		filepath.Join(work, "z"):              "z\n",
 		filepath.Join(root, "sub", "keep.me"): "keep\n",
+		// directories of other terminals (no session of this run uses these phones)
+		filepath.Join(work, "99999", "evidence.jpg"):       "evidence of 99999\n",
+		filepath.Join(work, "13800138000", "evidence.jpg"): "evidence of 13800138000\n",
+		filepath.Join(work, "1", "evidence.jpg"):           "evidence of 1\n",
 	}
 	for p, s := range canaries {
 		os.MkdirAll(filepath.Dir(p), 0o755)
@@ -124,7 +128,11 @@ func c19Worker(c *core.Collector, x *Ctx) {
 		s := sess{phone: phone}
 		for k := 0; k < nf; k++ {
 			var name []byte
-			switch g.Intn(6) {
+			switch g.Intn(8) {
+			case 6: // names built from the terminal's own phone: sibling directories that merely START with the phone
+				name = []byte(core.Pick(g.Rand, []string{"../" + phone + "1/f", "../" + phone + "x", "../" + phone + ".bak/f", "../" + phone + "/../" + phone + "0/g", "../" + phone + "_"}))
+			case 7: // another terminal's directory
+				name = []byte("../" + core.Pick(g.Rand, []string{"99999", "13800138000", "1"}) + "/" + g.Str(3))
 			case 0, 1, 2:
 				name = []byte(c19Names[g.Intn(len(c19Names))])
 			case 3: // long names made of ../ (50-byte chunk-header form and 255-byte announced form)
